@@ -50,7 +50,7 @@ def sheets_from_spec(wbj, ov=None):
         out[s][(c - 1, r - 1)] = v
     for name, val in (ov or {}).items():
         s, c, r = pos[name]
-        out[s][(c - 1, r - 1)] = val
+        out[s][(c - 1, r - 1)] = pyval(val)
     return [(TITLES[1], out[1]), (TITLES[2], out[2])]
 
 
@@ -67,10 +67,16 @@ class World:
         self.klass = repo.load_class(self.text)
 
 
+def pyval(v):
+    """a written value of the specification -> the Python value handed to the Executor (1001 / 1000 stand for TRUE / FALSE, see Workbook4!OvVal)"""
+    return True if v == 1001 else False if v == 1000 else v
+
+
 def mk_cell(pos, value=None, style=0):
     """addressing spellings: 0 numbers; 1 title + letters + row text; 2 sheet number + letters + row text;
     3 title + numeric column and row, and the Cell has been hashed before it is handed over (a caller that kept its cells in a set)"""
     s, c, r = pos
+    value = pyval(value)
     style = style % 4 if style > 2 else style
     if style == 0:
         return Cell(s - 1, c - 1, r - 1, value)
@@ -95,6 +101,8 @@ def val_json(kind, payload):
         return {'k': 'num', 'n': v['n']}
     if v['k'] == 'blank':
         return {'k': 'blank'}
+    if v['k'] == 'bool':
+        return {'k': 'bool', 'b': bool(v['b'])}
     if v['k'] == 'err':
         return {'k': 'err'}
     return {'k': 'other', 't': str(v)}
